@@ -303,6 +303,30 @@ class _Names:
         def find():
             cls = facts().cls("gherkin.ast_node.AstNode")
             init = cls.find_method("__init__")
+            if init is None:
+                # a dataclass: the field whose default factory makes the dictionary (defaultdict / dict, a lambda or a
+                # function of the module returning one)
+                def makes_dict(e, depth=0):
+                    if isinstance(e, ast.Lambda):
+                        return makes_dict(e.body, depth)
+                    if isinstance(e, ast.Name) and e.id in ("dict", "defaultdict"):
+                        return True
+                    if isinstance(e, ast.Call) and getattr(e.func, "id", getattr(e.func, "attr", "")) in ("defaultdict", "dict"):
+                        return True
+                    if isinstance(e, ast.Dict) and not e.keys:
+                        return True
+                    if isinstance(e, ast.Name) and depth < 2:
+                        r = facts().resolve_name(cls.module, e.id)
+                        if r is not None and r[0] == "func":
+                            return any(isinstance(x, ast.Return) and x.value is not None and makes_dict(x.value, depth + 1) for x in ast.walk(r[1].node))
+                    return False
+                for st_ in cls.node.body:
+                    if isinstance(st_, ast.AnnAssign) and isinstance(st_.target, ast.Name) and isinstance(st_.value, ast.Call) \
+                            and getattr(st_.value.func, "id", getattr(st_.value.func, "attr", "")) == "field":
+                        for k in st_.value.keywords:
+                            if k.arg == "default_factory" and makes_dict(k.value):
+                                return st_.target.id
+                raise AnalysisError("anchor vanished: AstNode child store (a dictionary of lists the node creates for itself) not found")
             for n in _walk(init.node):
                 tgt = val = None
                 if isinstance(n, ast.Assign):
@@ -349,6 +373,22 @@ class _Names:
                                 if isinstance(k, ast.Constant) and k.value == "line" and isinstance(v, ast.Attribute) and isinstance(v.value, ast.Name) \
                                         and v.value.id == mfi.params()[0]:
                                     lineno = v.attr
+            if raw is None:
+                # the attribute the trimmed text is computed from (``self.<trimmed> = self.<raw>.lstrip()``), else the one bound to
+                # an expression of the text parameter that does not trim on the left (what it holds is the line rules' business)
+                for n in _walk(init.node):
+                    if isinstance(n, ast.Assign) and isinstance(n.targets[0], ast.Attribute):
+                        v = n.value
+                        if isinstance(v, ast.Call) and isinstance(v.func, ast.Attribute) and v.func.attr == "lstrip" and isinstance(v.func.value, ast.Attribute) \
+                                and isinstance(v.func.value.value, ast.Name) and v.func.value.value.id == p[0]:
+                            raw = raw or v.func.value.attr
+                            trimmed = trimmed or n.targets[0].attr
+                for n in _walk(init.node):
+                    if raw is None and isinstance(n, ast.Assign) and isinstance(n.targets[0], ast.Attribute) and len(p) > 1 \
+                            and any(isinstance(x, ast.Name) and x.id == p[1] for x in ast.walk(n.value)) \
+                            and not any(isinstance(x, ast.Attribute) and x.attr in ("lstrip", "strip") for x in ast.walk(n.value)) \
+                            and not any(isinstance(x, ast.Call) and getattr(x.func, "id", "") == "len" for x in ast.walk(n.value)):
+                        raw = n.targets[0].attr
             if raw is None:
                 # by use: the attribute the comment matcher takes as the whole line (what it holds is checked by the line rules)
                 for mfi, member, call in self._line_uses():
